@@ -108,6 +108,9 @@ class C12(Check):
                     more.append([list(x) for x in prev])
             case["more_hists"] = more
             script.extend(list(rng.choice(hist + more[-1] + script)) if rng.random() < 0.5 else pt() for _ in range(L * len(more)))
+        if rng.random() < 0.25:
+            # simulations that failed: non-finite losses in the history (the points are in the history all the same)
+            case["bad_losses"] = [[rng.randrange(64), rng.choice(["inf", "nan", "-inf"])] for _ in range(rng.randint(1, 4))]
         if rng.random() < 0.2:
             case["pickle"] = rng.choice(["before", "between", "both"])   # restart@sampler: the object goes through pickle
         return case
@@ -134,6 +137,9 @@ class C12(Check):
                 res.stats["restart@sampler"] += 1
             hist = np.array(hl, dtype=float).reshape((-1, d))
             losses = np.arange(len(hist), dtype=float)
+            for pos, kind in case.get("bad_losses", []):
+                if len(losses):
+                    losses[pos % len(losses)] = float(kind)
             h0 = hist.copy()
             n_req = len(s.requests)
             out = s.sample(space, hist, losses)
@@ -205,6 +211,10 @@ class C12(Check):
         if case.get("pickle"):
             c = copy.deepcopy(scn)
             del c["case"]["pickle"]
+            yield c
+        if case.get("bad_losses"):
+            c = copy.deepcopy(scn)
+            c["case"]["bad_losses"].pop()
             yield c
         if case["budget"] > 0:
             c = copy.deepcopy(scn)
